@@ -6,6 +6,7 @@ import (
 	"fmt"
 	"go/token"
 	"go/types"
+	"sort"
 	"strings"
 
 	"golang.org/x/tools/go/ssa"
@@ -86,10 +87,27 @@ func runC15(c *Ctx) {
 				callers = append(callers, fn)
 			}
 		}
+		// ... and the helpers outside the vocabulary these call (a combined "applies" helper that
+		// in turn asks the exception test)
+		for hf := range helperGroup(c.P, callers...) {
+			known := false
+			for _, cl := range callers {
+				if cl == hf {
+					known = true
+				}
+			}
+			if !known && hf.Parent() == nil {
+				callers = append(callers, hf)
+			}
+		}
+		sort.Slice(callers, func(i, j int) bool { return callers[i].String() < callers[j].String() })
+		var alsoFn func(cal *ssa.Function) bool
 		adopt := func(fits func(sig *types.Signature) bool) *ssa.Function {
 			var got *ssa.Function
 			for _, cl := range callers {
-				if r := c.P.ResolveRole(cl, func(cal *ssa.Function) bool { return c.P.IsNewHelper(cal) && fits(cal.Signature) }); r != nil {
+				if r := c.P.ResolveRole(cl, func(cal *ssa.Function) bool {
+					return c.P.IsNewHelper(cal) && fits(cal.Signature) && (alsoFn == nil || alsoFn(cal))
+				}); r != nil {
 					if got != nil && got != r {
 						return nil
 					}
@@ -104,6 +122,19 @@ func runC15(c *Ctx) {
 			})
 		}
 		if isWL == nil {
+			// (a helper that itself asks the rule handed to it whether it matches is the combined
+			// "applies" test, not the exception test)
+			alsoFn = func(cal *ssa.Function) bool {
+				self := false
+				eachInstr(cal, func(_ *ssa.BasicBlock, in ssa.Instruction) {
+					if ci, ok := in.(ssa.CallInstruction); ok && ci.Common().StaticCallee() == crm && len(ci.Common().Args) > 0 {
+						if _, isP := ci.Common().Args[0].(*ssa.Parameter); isP {
+							self = true
+						}
+					}
+				})
+				return !self
+			}
 			isWL = adopt(func(sig *types.Signature) bool {
 				if sig.Params().Len() != 2 || sig.Results().Len() != 1 || typeStr(sig.Results().At(0).Type()) != "bool" {
 					return false
@@ -114,6 +145,7 @@ func runC15(c *Ctx) {
 				return (t0 == "string" && t1 == "*rules.CosmeticRule") || (t1 == "string" && t0 == "*rules.CosmeticRule") || (t0 == "string" && t1 == "string")
 			})
 		}
+		alsoFn = nil
 		if tblAdd == nil {
 			tblAdd = adopt(func(sig *types.Signature) bool {
 				return sig.Params().Len() == 1 && typeStr(sig.Params().At(0).Type()) == "*rules.CosmeticRule" && sig.Results().Len() == 0
